@@ -46,3 +46,69 @@ Proof.
       destruct (gmatch_ok "templates/.?*" n); reflexivity.
     + repeat split; vm_compute; reflexivity.
 Qed.
+
+(* ---------- a .helmignore with a line parseRule rejects: LoadDir fails, nothing is loaded or packaged ---------- *)
+(* the lines parseRule refuses: not blank, not a comment, and containing ** or malformed for filepath.Match *)
+Definition bad_line (l : string) : bool :=
+  let r := trim_space l in
+  negb (String.eqb r "") && negb (String.prefix "#" r) && (has_infix "**" r || gmatch_err r).
+
+Lemma parse_rule_bad l : bad_line l = true -> parse_rule gmatch_err l = None.
+Proof.
+  unfold bad_line, parse_rule. rewrite !andb_true_iff, !negb_true_iff. intros [[-> ->] H].
+  destruct (has_infix "**" (trim_space l)); [reflexivity|]. simpl in H. now rewrite H.
+Qed.
+
+Lemma parse_lines_bad ls l : In l ls -> bad_line l = true -> parse_lines gmatch_err ls = None.
+Proof.
+  induction ls as [|x ls IH]; intros Hin Hb; [contradiction|]. cbn [parse_lines].
+  destruct Hin as [->|Hin]; [now rewrite (parse_rule_bad l Hb)|].
+  destruct (parse_rule gmatch_err x) as [[p|]|]; auto; now rewrite (IH Hin Hb).
+Qed.
+
+Section LoadDirText.
+  Variable md_merge : meta -> string -> option meta.
+  Variable lock_dec : string -> option (option lockv).
+  Variable parse_values : string -> option val.
+  Variable untar : string -> tstream.
+  Variable sanitize : meta -> meta.
+  Variable is_semver : string -> bool.
+  Variable rest_valid : meta -> bool.
+  Variable maxt maxf : Z.
+
+  (* LoadDir: the rules file (if any) is parsed first; a parse error is returned before anything is
+     walked (directory.go: `r, err := ignore.ParseFile(ifile); if err != nil { return c, err }`) *)
+  Definition load_dir_helmignore (text : option string) (fuel : nat) (walk : list file) : lerr + chart :=
+    match parse_ignore gmatch_err text with
+    | None => inl LIgnore
+    | Some ps => load_dir_walk md_merge lock_dec parse_values untar sanitize is_semver rest_valid maxt maxf
+                               (rules_ignore gmatch_ok ps) fuel walk
+    end.
+
+  Theorem malformed_helmignore_aborts text l fuel walk :
+    In l (ignore_lines text) -> bad_line l = true ->
+    load_dir_helmignore (Some text) fuel walk = inl LIgnore.
+  Proof.
+    intros Hin Hb. unfold load_dir_helmignore, parse_ignore. fold (ignore_lines text).
+    now rewrite (parse_lines_bad _ l Hin Hb).
+  Qed.
+
+  Theorem malformed_helmignore_aborts2 text l fuel walk :
+    In l (ignore_lines text) -> bad_line l = true ->
+    parse_ignore gmatch_err (Some text) = None /\
+    load_dir_helmignore (Some text) fuel walk = inl LIgnore.
+  Proof.
+    intros Hin Hb. split; [|now apply (malformed_helmignore_aborts text l)].
+    unfold parse_ignore. fold (ignore_lines text). now rewrite (parse_lines_bad _ l Hin Hb).
+  Qed.
+End LoadDirText.
+
+Definition mixed_text : string :=
+  "secrets/" ++ String nl ("*.bak" ++ String nl ("/README.md" ++ String nl ("docs/**/*.png" ++ String nl ""))).
+
+Lemma bad_line_examples :
+  bad_line "docs/**/*.png" = true /\ bad_line "[z-" = true /\ bad_line "a/**" = true /\ bad_line "[" = true /\
+  bad_line "x[]" = true /\ bad_line "abc\" = true /\ bad_line "  [a-  " = true /\
+  bad_line "# [z-" = false /\ bad_line "*.bak" = false /\ bad_line "secrets/" = false /\ bad_line "x*[" = false /\
+  In "docs/**/*.png" (ignore_lines mixed_text) /\ parse_ignore gmatch_err (Some mixed_text) = None.
+Proof. repeat split; try (vm_compute; reflexivity). vm_compute. tauto. Qed.
